@@ -4,7 +4,7 @@ from .. import family, mapcase
 
 PROPS_FILES = ['theories/Props/C11.v']
 FINDINGS_FILES = ['theories/Findings/C11.v']
-LEVEL = 'other'
+LEVEL = 'proof'
 TRUSTED = ['Model/Data.v coerce_rows: pandas column dtype inference for SQL results / JSON arrays / columnar files (modelled, not verified)',
            'the row-wise reading of the vectorised engine (Model/Engine.v), tied by the correspondence']
 ASSUMES = ['join-free mappings (joins: C07); quoted maps: C13']
